@@ -70,3 +70,21 @@ Example C01_left_assoc_example :
     [TInt 1; TOp (opi "MINUS"); TInt 2; TOp (opi "MINUS"); TInt 3]
   = Some (Infix (opi "MINUS") (Infix (opi "MINUS") (Int 1) (Int 2)) (Int 3), []).
 Proof. vm_compute. reflexivity. Qed.
+
+(* ---- back end, stage A: the compiler model that is compared with the real compiler on every run emits, for
+   every scalar expression (integer / boolean / nil literals, prefix - and !, arithmetic and comparison
+   operators, short-circuit && and ||, the conditional; any nesting), exactly the code of the pure function
+   [cexp] - jump distances included -, appends exactly its constants and changes nothing else of its state. ---- *)
+Require Import RV.model.Syntax RV.model.Compiler RV.model.ScalarFrag RV.proofs.BackendProofs.
+Theorem C01_back_compile_scalar : forall e f st w r,
+  st_stack st = w :: r -> height e <= f ->
+  compile f (embed e) st =
+  inr (I (fst (cexp (length (w_consts w)) e)), add_consts st (snd (cexp (length (w_consts w)) e))).
+Proof. exact compile_scalar. Qed.
+
+(* Non-vacuity: 1 + 2 * 3 < 10 && !nil on the initial compiler state *)
+Example C01_back_compile_example :
+  fst (cexp 0 (SLand (SBin CLt (SBin BAdd (SInt 1) (SBin BMul (SInt 2) (SInt 3))) (SInt 10)) (SNot SNil))) =
+  [opLoadConst; 0; opLoadConst; 1; opLoadConst; 2; opBinaryOp; bMultiply; opBinaryOp; bAdd; opLoadConst; 3;
+   opCompareOp; cLessThan; opCopy; 0; opPopJumpForwardIfFalse; 7; opNil; opUnaryNot; opBinaryOp; bAnd; opNop]%N.
+Proof. vm_compute. reflexivity. Qed.
